@@ -392,12 +392,24 @@ func selectCaseReturns(sel *ssa.Select, i int, g *ssa.Global) bool {
 				continue
 			}
 			body := kit.SuccOnTrue(iff)
-			for _, in := range body.Instrs {
-				if ret, ok := in.(*ssa.Return); ok {
-					ev := returnedError(ret)
-					return ev != nil && usesGlobal(ev, g)
+			// every way on from the case body ends in a return of the error (possibly handed up
+			// through a result variable and the caller's `if err != nil`: branches on phis are
+			// decided by the value that arrives over the edge taken)
+			reached := false
+			bad := kit.PathFromBlock(body, kit.PathQuery{TargetPath: func(in ssa.Instruction, path []*ssa.BasicBlock) bool {
+				ret, ok := in.(*ssa.Return)
+				if !ok {
+					return false
 				}
-			}
+				reached = true
+				ev := returnedError(ret)
+				if ev == nil {
+					return true
+				}
+				full := append([]*ssa.BasicBlock{iff.Block()}, path...)
+				return !usesGlobal(kit.ResolveAlong(ev, full), g)
+			}})
+			return reached && bad == nil
 		}
 	}
 	return false
